@@ -40,7 +40,11 @@ ASSUME = ['where modeling.rst is silent or ambiguous nothing is demanded about a
           'any of TypeError / ValueError / NotImplementedError / IndexError counts as a refusal',
           'exact comparison for integer/dyadic data; 1e-12 relative when a divisor is not a power of two',
           'sparse-constant minus function is evaluated only in a forked child (spmatrix_sub can kill the '
-          'interpreter); if the child dies those trees are skipped in-process and reported once']
+          'interpreter); if the child dies those trees are skipped in-process and reported once',
+          'a tree whose depth-2 (depth-3 in the d4 family) child already fails its own check is not examined further: '
+          'the failure is reported once at the child (outcome skipped:child-already-fails)',
+          'at most 2 reports per violation key and worker process are kept (the engine stops a worker after 200 '
+          'violations); the outcome violating-trees counts all of them']
 BOUNDS = {'quick': 'depth<=2 over the full constant palette (all trees); depth 3: first non-leaf child = every accepted '
                    'depth-2 tree over the reduced palette (int 2/-1/0, float, dense 1x1, dense col2/col3, sparse col3, '
                    'dense row2, sparse row3, dense 3x2, sparse 2x3, dense 2x2), every root op, other operand = every leaf, '
@@ -139,7 +143,7 @@ def idx_palette(L):
     if L == 1:
         return [['int', 0], ['int', -1], ['list', [0, 0]], ['slice', None, None, None], ['imat', [0]]]
     if L == 2:
-        return [['int', 0], ['int', -1], ['int', 1], ['slice', None, None, -1], ['slice', 1, None, None],
+        return [['int', 0], ['int', -1], ['int', 1], ['int', -2], ['slice', None, None, -1], ['slice', 1, None, None],
                 ['list', [1, 0, 1]], ['imat', [-1, 0]]]
     return [['int', 1], ['int', -1], ['int', -L], ['slice', None, None, 2], ['slice', None, None, -1],
             ['slice', 1, None, None], ['list', [L - 1, 0]], ['list', [0, -1, -1]], ['imat', [1]]]
@@ -609,11 +613,19 @@ class Ctx(object):
         i = R.analyze(t, self.amemo)
         if i.n is None:
             return 'f?'
-        z = t
-        while z[0] in ('pos', 'neg'):
-            z = z[1]
-        zero = z[0] in ('mul', 'rmul') and any(c[0] == 'const' and len(c[3]) == 1 and c[3][0] == 0 for c in z[1:3])
-        return 'f%s%s%s' % ('1' if i.n == 1 else 'n', ''.join(sorted(i.cls)) if i.cls else '', '0' if zero else '')
+        return 'f%s%s%s' % ('1' if i.n == 1 else 'n', ''.join(sorted(i.cls)) if i.cls else '',
+                            '0' if self.iszero(t, i) else '')
+
+    def iszero(self, t, i):
+        """an affine function that is identically zero (0*x, sum(0*x), x*0 - 0*y, ...)."""
+        if i.cls is None or not i.cls <= R.A:
+            return False
+        try:
+            names = sorted(R.tree_vars(t))
+            n = builtins_sum(VARLEN[w] for w in names)
+            return not any(any(self.refval(t, names, p)) for p in basis_points(n)[:n + 1])
+        except Exception:
+            return False
 
     def pattern(self, t):
         op = t[0]
@@ -655,12 +667,13 @@ class Ctx(object):
     def coefkind(self, t, v):
         """how the (reference) function t depends on the vector variable v near 0: 'I' a multiple of the identity,
         'row' a length-1 function with unequal slopes, 'urow' with equal slopes, 'brow'/'ubrow' the same row in
-        every component of a longer function, 'M' a general matrix, '0' no dependence."""
+        every component of a longer function, 'M' a general matrix, '0' a zero coefficient, '-' v absent from the
+        affine part."""
         try:
             t = self.strip(t)
             names = sorted(R.tree_vars(t))
             if v not in names:
-                return '0'
+                return '-'          # v only occurs inside max / min / abs terms
             n = builtins_sum(VARLEN[w] for w in names)
             zero = tuple([0] * n)
             f0 = self.refval(t, names, zero)
